@@ -173,14 +173,25 @@ inductive Verdict where
 def refTarget (r : Registry) (G : Graph) (m : Mod) (arg : String) : Option Vertex :=
   (names r m arg).filter (· ∈ G.verts)
 
-/-- The identityref leaves at the top level of the loaded (sub)modules:
-(declaring (sub)module, leaf name, base argument). -/
+/-- The base argument that decides what an identityref leaf or leaf-list `l` at the top level of
+`m` refers to: of the identityref type written on it, of the identityref member of its union, or
+of the identityref type of the typedef of `m` it names.  `none`: not an identityref node;
+`some none`: an identityref without base statement. -/
+def refBase (m : Mod) (l : Stmt) : Option (Option String) :=
+  (l.one? "type").bind fun ty =>
+    let decider : Option Stmt :=
+      if ty.arg == "identityref" then some ty
+      else if ty.arg == "union" then (ty.all "type").find? (·.arg == "identityref")
+      else ((m.stmt.all "typedef").find? (·.arg == ty.arg)).bind fun td =>
+        (td.one? "type").filter (·.arg == "identityref")
+    decider.map (·.argOf? "base")
+
+/-- The identityref leaves and leaf-lists at the top level of the loaded (sub)modules:
+(declaring (sub)module, node name, base argument). -/
 def refs (r : Registry) : List (Mod × String × Option String) :=
   r.mods.flatMap fun m =>
-    (m.stmt.all "leaf").filterMap fun l =>
-      match l.one? "type" with
-      | some ty => if ty.arg == "identityref" then some (m, l.arg, ty.argOf? "base") else none
-      | none => none
+    (m.stmt.all "leaf" ++ m.stmt.all "leaf-list").filterMap fun l =>
+      (refBase m l).map fun b => (m, l.arg, b)
 
 /-- Judge an observed result.  `vals`: (vertex, reported list) for the identity statements of the
 schema; `refs`: (identity the base statement names, identity the resolved type points at) for the
